@@ -211,6 +211,9 @@ def handleMX (ins outs : List J) : Verdict :=
         let slice := good.filterMap fun (x, p, _) => (gammaRef a x).map fun e =>
           ("gammainc", inTol (.fin p) e (1 / 1000000000) 0, s!"a={ratStr a} x={ratStr x} go={ratStr p} reference {iStr e}")
         let lg := Special.lgammaI (a + 1)
+        -- the proved series enclosure of log Γ against the (unformalised) Stirling enclosure
+        let lgCheck := [("reference-consistency", overlap lg (Special.lgammaStirling (a + 1)) && (Special.lgammaS (a + 1)).isSome,
+          s!"log Gamma({ratStr (a + 1)}): series {iStr lg} vs Stirling {iStr (Special.lgammaStirling (a + 1))}")]
         let gen := good.flatMap fun (x, p, _) =>
           match Special.gammaRegIWith lg a x with
           | some e =>
@@ -219,7 +222,7 @@ def handleMX (ins outs : List J) : Verdict :=
              | some c => [("reference-consistency", overlap e c, s!"a={ratStr a} x={ratStr x}: series {iStr e} vs closed form {iStr c}")]
              | none => [])
           | none => []
-        let refs := slice ++ gen
+        let refs := slice ++ gen ++ lgCheck
         verdictOf ("nt gammagrid" ++ (if slice.isEmpty then " general-reference" else " slice-reference"))
           ([("gammainc-nan", nanOk, "expected NaN for x < 0 or NaN"), ("gammainc-finite", allFin, "non-finite value for valid arguments"),
             ("gammainc-range", range, "outside [0,1]"), ("gammainc-sum", sum1, s!"a={ratStr a}: P+Q != 1"),
